@@ -71,15 +71,6 @@ SIMPLE = {
         (r'^InnerAccessControl::allow\(arg1\.ipv4,into<Ipv4Net>\(IpAddr::to_canonical\(arg2\)@V4\.0\)\)$', [r'^is\(IpAddr::to_canonical\(arg2\),V4\)$']),
         (r'^InnerAccessControl::allow\(arg1\.ipv6,into<Ipv6Net>\(IpAddr::to_canonical\(arg2\)@V6\.0\)\)$', [r'^is\(IpAddr::to_canonical\(arg2\),V6\)$'])],
         'the canonical (v4-mapped folded) source address is evaluated against the list of its own family'),
-    'InnerAccessControl::allow': ('hickory_server::access::InnerAccessControl::allow', [
-        (rf'^lt\(Prefix::prefix_len\({DL}@Some\.0\),Prefix::prefix_len\({AL}@Some\.0\)\)$', [rf'^ok\({DL}\)$', rf'^ok\({AL}\)$']),
-        (r'^false$', [rf'^ok\({DL}\)$', rf'^!ok\({AL}\)$']),
-        (r'^true$', [rf'^!ok\({DL}\)$', rf'^ok\({AL}\)$']),
-        (r'^true$', [rf'^!ok\({DL}\)$', rf'^!ok\({AL}\)$', r"^ok\(<Iter<'_;P> as Iterator>::next\(PrefixSet::iter\(arg1\.deny\)\)\)$"]),
-        (r'^false$', [rf'^!ok\({DL}\)$', rf'^!ok\({AL}\)$', r"^!ok\(<Iter<'_;P> as Iterator>::next\(PrefixSet::iter\(arg1\.deny\)\)\)$", r"^ok\(<Iter<'_;P> as Iterator>::next\(PrefixSet::iter\(arg1\.allow\)\)\)$"]),
-        (r'^true$', [rf'^!ok\({DL}\)$', rf'^!ok\({AL}\)$', r"^!ok\(<Iter<'_;P> as Iterator>::next\(PrefixSet::iter\(arg1\.deny\)\)\)$", r"^!ok\(<Iter<'_;P> as Iterator>::next\(PrefixSet::iter\(arg1\.allow\)\)\)$"])],
-        'deny and allow are both matched by LONGEST prefix; a source in both is served iff the allow network is the more specific; in deny only -> refused; '
-        'in allow only -> served; in neither -> served unless only allow networks are configured'),
     'RecordType::is_any': ('hickory_proto::rr::record_type::RecordType::is_any', [(r'^eq:RecordType\(RecordType::ANY,arg1\)$|^eq:RecordType\(arg1,RecordType::ANY\)$|^is\(arg1,ANY\)$', [])], 'ANY only'),
 }
 
@@ -141,7 +132,23 @@ def _into_wildcard(cx, rule):
     cx.check(rule, len(skip) == 1 and len(ext) == 1, f.path, 'calls', 'wildcard-replaces-exactly-the-leftmost-label', f'skip(1)={len(skip)} copy-rest={len(ext)}')
 
 
-SPECIAL = {'SerialNumber::partial_cmp': _serial, 'Name::into_wildcard': _into_wildcard}
+def _acl(cx, rule):
+    """InnerAccessControl::allow, as an exact boolean function of five atoms (whatever the spelling: match table or expression):
+    D / A = the source has a longest-prefix match in the deny / allow list, L = the deny match is less specific than the allow match,
+    ND / NA = the deny / allow list is non-empty.   allow = (!D | A) & (!D | !A | L) & (D | A | ND | !NA): in deny only -> refused; in
+    both -> served iff allow is more specific; in allow only -> served; in neither -> served unless only allow networks exist."""
+    f = cx.fn(rule, 'hickory_server::access::InnerAccessControl::allow')
+    if not f:
+        return
+    D, A = DL.join(['ok\\(', '\\)']), AL.join(['ok\\(', '\\)'])
+    L = rf'lt\(Prefix::prefix_len\({DL}@Some\.0\),Prefix::prefix_len\({AL}@Some\.0\)\)'
+    ND = r"ok\(<Iter<'_;P> as Iterator>::next\(PrefixSet::iter\(arg1\.deny\)\)\)"
+    NA = r"ok\(<Iter<'_;P> as Iterator>::next\(PrefixSet::iter\(arg1\.allow\)\)\)"
+    NL = rf'le\(Prefix::prefix_len\({AL}@Some\.0\),Prefix::prefix_len\({DL}@Some\.0\)\)'
+    cx.bool_cnf(rule, f, [['!' + D, A], ['!' + D, '!' + A, (L, NL)], [D, A, ND, '!' + NA]], 'acl-decision=(!D|A)&(!D|!A|L)&(D|A|ND|!NA)')
+
+
+SPECIAL = {'SerialNumber::partial_cmp': _serial, 'Name::into_wildcard': _into_wildcard, 'InnerAccessControl::allow': _acl}
 # helpers pulled in transitively
 CLOSURE = {'Name::zone_of': ['Name::zone_of_with', 'Name::zone_of_with::{closure@all#0}'], 'Name::zone_of_case': ['Name::zone_of_with', 'Name::zone_of_with::{closure@all#0}'],
            'Name::base_name': ['Name::trim_to'], 'Name::is_wildcard': ['Name::is_wildcard::{closure@is_some_and#0}'],
